@@ -24,7 +24,13 @@ def main():
         except kernel.KernelError as ex:
             raise core.MachineryError("kernel could not be resolved: %s" % ex)
         if a.replay:
-            rc = mod.replay(ctx, a.replay)
+            import json
+            from harness import history
+            case = json.load(open(a.replay)).get("case", {})
+            if isinstance(case, dict) and case.get("kind") in history.KINDS and "script" in case:
+                rc = history.replay(ctx, case)          # a replayed history (spec/History.tla), whichever check reported it
+            else:
+                rc = mod.replay(ctx, a.replay)
         else:
             mod.run(ctx, selftest=a.selftest)
             rc = ctx.finish()
